@@ -89,6 +89,19 @@ CLAIMED = {
         technique="symbolic execution (CrossHair/z3) of real constructor vs range oracle, path-tree exhaustion",
         ref="3/C12",
     ),
+    "C19": dict(
+        text="Symbolic execution of the real read_namespace/read_files on scratch namespaces in which the TEXT of every "
+        "definition outside the dependency closure is an unconstrained symbolic str (any text, any length): the "
+        "condition exhausts in a single path iff the real code never evaluates that text, and the result, the print "
+        "output and the absence of any access are asserted on that path. Outsider placements (other versions of "
+        "referenced names, colliding port-IDs/kinds/minor versions, nested directories, the target's own root for "
+        "read_files) are enumerated scaffolding.",
+        note="DSDLDefinition.text is overridden for outsider paths only (harness-side spy). Malformed outsider FILE "
+        "NAMES are outside the claim (the property itself allows them to be reported). Namespace layouts are "
+        "scaffolding.",
+        technique="symbolic execution (CrossHair/z3) of real reader with unconstrained symbolic outsider text",
+        ref="3/C19",
+    ),
 }
 
 NOT_APPLICABLE = {
